@@ -581,5 +581,8 @@ package contractcourt
 //@ func (c *ChainArbitrator) loadPendingCloseChannels
 //@   props C13
 //@   loop * havoc
+//@   // EVERY pending-close channel gets its arbitrator back - also one whose log already says fully resolved: marking the channel fully
+//@   // closed and wiping the log are separate durable writes that only the re-run terminal state repairs
+//@   loop 0 step called(NewChannelArbitrator)
 //@   site call NewChannelArbitrator: assert arg(0).CloseType == closeChanInfo.CloseType && arg(0).IsPendingClose &&
 //@        arg(0).ClosingHeight == closeChanInfo.CloseHeight
